@@ -267,6 +267,30 @@ func (r *Report) Violate(sig, detail string, replay any) {
 	if r.t != nil {
 		r.t.Logf("VIOLATION-CANDIDATE %s sig=%s: %s", r.Property, sig, detail)
 	}
+	r.writePartialLocked()
+}
+
+// writePartialLocked saves what is known so far (called with r.mu held, at the first occurrence of
+// every violation signature): if the code under test later takes the whole process down - a panic in
+// a goroutine of its own cannot be recovered by the harness - the violations found before that are
+// still reported.  Finish overwrites the file with the complete report.
+func (r *Report) writePartialLocked() {
+	out := os.Getenv("VERIF_OUT")
+	if out == "" {
+		return
+	}
+	cp := *r
+	cp.Exhaustive = false
+	cp.Caps = append(append([]string{}, r.Caps...), "partial report (written when a violation was recorded; the process ended before the sub-check finished)")
+	cp.WallS = time.Since(r.start).Seconds()
+	cp.CasesEnumerated = r.caseIdx
+	cp.DistinctN = len(r.Distinct)
+	if cp.Samples == nil {
+		cp.Samples = []any{}
+	}
+	if b, err := json.Marshal(&cp); err == nil {
+		_ = os.WriteFile(filepath.Join(out, fmt.Sprintf("%s.%s.%d.json", r.Property, r.Sub, r.Shard)), b, 0o644)
+	}
 }
 
 // HarnessError records a harness problem (never a property violation).
